@@ -31,6 +31,7 @@ FUNCTIONS = [
     "pyxel.pipelines.model_group:ModelGroup.run",
     "pyxel.run:run_mode",
     "pyxel.exposure.readout:Readout.__init__",
+    "pyxel.data_structure.charge:Charge.array", "pyxel.data_structure.charge:Charge.set_frame_values", "pyxel.data_structure.charge:Charge.remove_from_frame",
 ]
 STUBS = ["none: the real run_mode runs end-to-end on the solver-chosen concrete inputs"]
 OUTSIDE = ["this is concolic input generation + concrete comparison, not a symbolic decision: xarray / pandas cannot hold symbolic values"]
